@@ -49,3 +49,17 @@ def registerDefaults {V : Type} (m : Table) (parent child : Dict V) : Dict V :=
     (match m.find? (·.2 == kv.1) with
      | some no => no.1
      | none => kv.1, kv.2)⟩
+
+/-! any nesting depth: a path of placements from the top solver down to a component (see `Properties/C05.lean`) -/
+
+/-- simultaneous substitution on look-up functions (what `simul` does with the dictionary's `get?`) -/
+def simulF {V : Type} (m : Table) (L : String → Option V) (x : String) : Option V :=
+  match m.find? (·.2 == x) with
+  | some no => L no.1
+  | none => if m.any (·.1 == x) then none else L x
+
+
+/-- the parameter dictionary that reaches the bottom of a path of placements -/
+def descend {V : Type} (top : Dict V) : List (Table × Dict V) → Dict V
+  | [] => top
+  | (m, cd) :: rest => descend (solverParams cd (renameFixed m top) ⟨[]⟩) rest
